@@ -5,7 +5,8 @@
    transaction payloads and the curve point check are arbitrary parameters
    (snap_body, snap_signed, tx_body, check_key): every theorem holds for all of them. *)
 From Coq Require Import List ZArith NArith Bool.
-Require Import Mixin.Base.Res Mixin.Gen.Consts Mixin.Model.P2PMsg Mixin.Proofs.P2PMsg.
+Require Import Mixin.Base.Res Mixin.Gen.Consts Mixin.Model.P2PMsg Mixin.Proofs.P2PMsg Mixin.Proofs.P2PMsgInst.
+Require Mixin.Model.TxCodec Mixin.Model.SnapCodec Mixin.Proofs.TxCodecTop Mixin.Proofs.SnapCodec.
 Import ListNotations.
 Open Scope Z_scope.
 
@@ -197,3 +198,60 @@ Example C08_ex_short_inputs :
   ex_parse 2%N [] = Err /\ ex_parse 2%N [15]%N = Err /\ ex_parse 2%N [24;0;0;0;200]%N = Err
   /\ ex_parse 2%N [1]%N = Ok (2%N, MPing) /\ ex_parse 2%N [77]%N = Ok (2%N, MOther 77).
 Proof. repeat split; vm_compute; reflexivity. Qed.
+
+(* ---- the parser over the concrete payload decoders -------------------------------------------
+   [parse_msg_concrete] is [parse_msg] with the opaque decoders instantiated by the
+   byte-level models of common.UnmarshalVersionedTransaction (Model/TxCodec.v, C06) and
+   common.UnmarshalVersionedSnapshot (Model/SnapCodec.v, C07); only the curve check
+   remains a (total, boolean) parameter. *)
+
+(* The checks P2PMsg.v writes in front of the opaque decoders are the ones the
+   concrete decoders begin with: the composition is the real call. *)
+Theorem C08_inner_decoders_composed : forall b,
+  snap_dec Mixin.Model.SnapCodec.snapshot snap_body_c b = snap_body_c b /\
+  tx_dec Mixin.Model.TxCodec.tx tx_body_c b = tx_body_c b.
+Proof. intros b. split; [apply snap_dec_concrete|apply tx_dec_concrete]. Qed.
+Print Assumptions C08_inner_decoders_composed.
+
+(* No hypothesis on the payload decoders: for every version and every string of
+   bytes shorter than 4 GiB the parser does not panic, and no call of either
+   payload decoder on any slice of the message panics (so reading their outcome as
+   accepted / refused hides nothing). *)
+Theorem C08_total_concrete : forall check_key v b, len b < 4294967296 -> is_bytes b ->
+  parse_msg_concrete check_key v b <> Panic /\
+  (forall lo hi r, slice b lo hi = Ok r ->
+     Mixin.Model.TxCodec.unmarshal r <> Panic /\ Mixin.Model.SnapCodec.unmarshal_snapshot r <> Panic).
+Proof. exact total_concrete. Qed.
+Print Assumptions C08_total_concrete.
+
+(* every well-formed transaction (C06_roundtrip's wf_tx), alone or in a bundle, comes back field for field *)
+Theorem C08_roundtrip_transaction_concrete : forall check_key v t, Mixin.Proofs.TxCodecTop.wf_tx t ->
+  parse_msg_concrete check_key v (build_transaction (Mixin.Model.TxCodec.ser_tx t)) = Ok (v, MTransaction t).
+Proof. exact roundtrip_transaction_concrete. Qed.
+Print Assumptions C08_roundtrip_transaction_concrete.
+
+Theorem C08_roundtrip_transactions_concrete : forall check_key v ts typ m,
+  typ = ty Consts.P2P_TypeTransactionBundle \/ typ = ty Consts.P2P_TypeFinalizedTransactionBundle ->
+  Forall Mixin.Proofs.TxCodecTop.wf_tx ts ->
+  build_transactions (map Mixin.Model.TxCodec.ser_tx ts) typ = Ok m ->
+  parse_msg_concrete check_key v m = Ok (v, MBundle (Z.of_N typ) ts).
+Proof. exact roundtrip_transactions_concrete. Qed.
+Print Assumptions C08_roundtrip_transactions_concrete.
+
+(* every well-formed snapshot (C07_roundtrip's wf) in a finalization message comes back, transactions sorted *)
+Theorem C08_roundtrip_finalization_concrete : forall check_key v s topo,
+  Mixin.Proofs.SnapCodec.wf s -> (topo < Mixin.Proofs.SnapCodec.u64_bound)%N ->
+  exists e, Mixin.Model.SnapCodec.versioned_marshal s topo = Ok e /\
+    parse_msg_concrete check_key v (build_finalization e) = Ok (v, MFinalization (Mixin.Proofs.SnapCodec.canon s)).
+Proof. exact roundtrip_finalization_concrete. Qed.
+Print Assumptions C08_roundtrip_finalization_concrete.
+
+Definition ex_tx : Mixin.Model.TxCodec.tx :=
+  {| Mixin.Model.TxCodec.t_version := 5; Mixin.Model.TxCodec.t_asset := 7; Mixin.Model.TxCodec.t_inputs := [];
+     Mixin.Model.TxCodec.t_outputs := []; Mixin.Model.TxCodec.t_refs := [9%N; 11%N]; Mixin.Model.TxCodec.t_extra := [1; 2; 3]%N;
+     Mixin.Model.TxCodec.t_auth := Mixin.Model.TxCodec.SigMaps [] |}.
+
+Example C08_ex_concrete :
+  parse_msg_concrete (fun _ => true) 2%N (build_transaction (Mixin.Model.TxCodec.ser_tx ex_tx)) = Ok (2%N, MTransaction ex_tx)
+  /\ parse_msg_concrete (fun _ => true) 2%N (build_finalization [119; 119; 0; 2; 1; 2; 3]%N) = Err.
+Proof. split; vm_compute; reflexivity. Qed.
